@@ -13,6 +13,8 @@ import WhVerif.Lemmas.C06Affine
 import WhVerif.Lemmas.C06Filter
 import WhVerif.Lemmas.C06SecondIndel
 import WhVerif.Lemmas.C06AffineStrip
+import WhVerif.Lemmas.C06Merge
+import WhVerif.Lemmas.C06IndelCut
 /-!
 # C06 — allele detection never assigns the wrong allele to an error-free read: theorems about the model
 
@@ -1442,5 +1444,202 @@ example : realign true lev ⟨5, [], [['T', 'T']]⟩ none ['G', 'G', 'A', 'C', '
   | 1, hj => simp at hj; subst hj; rw [← levFast_eq_lev, ← levFast_eq_lev]; decide
   | j + 2, hj => simp at hj
 end NonVacuitySecond
+
+/-! ## Round 10: `create_read_from_group` on error-free mates / supplementary alignments
+
+`usedBy f12 primary thr r` = the alignment `r` of the group is used: (repaired F12) it is a primary alignment (a mate), or it
+has the primary's orientation and lies within the distance threshold. -/
+
+/-- `merge_group_unanimous` (no assumption on the reads): the merged read exists; every call it carries was detected on a
+used alignment of the group, and EVERY used alignment that has a call at that position has the SAME allele — two
+alignments that disagree remove the position, so merging never decides between conflicting alleles. -/
+theorem merge_group_unanimous (f12 : Bool) (group : List Aligned) (thr : Int) (primary : Aligned)
+    (hp : (group.filter (fun r => !r.supplementary)).getLast? = some primary)
+    (hn : (group.filter (fun r => !r.supplementary)).length ≤ 2) :
+    ∃ out, mergeGroup f12 group thr = some out ∧
+      (∀ x ∈ out, ∃ r ∈ group, usedBy f12 primary thr r = true ∧ x ∈ r.variants) ∧
+      (∀ x ∈ out, ∀ r ∈ group, usedBy f12 primary thr r = true → ∀ y ∈ r.variants, y.1 = x.1 → y.2.1 = x.2.1) := by
+  refine ⟨_, mergeGroup_eq f12 group thr primary hp hn, ?_, ?_⟩
+  · intro x hx
+    rw [mem_sortByPos, List.mem_filter] at hx
+    rcases foldAdd_mem _ _ x hx.1 with h | ⟨r, hr, h⟩
+    · cases h
+    · rw [List.mem_filter] at hr
+      exact ⟨r, hr.1, hr.2, h⟩
+  · intro x hx r hr hu y hy hpos
+    rw [mem_sortByPos, List.mem_filter] at hx
+    apply Classical.byContradiction
+    intro hne
+    have := foldAdd_conflict ([], []) (group.filter (usedBy f12 primary thr)) List.Pairwise.nil r
+      (List.mem_filter.2 ⟨hr, hu⟩) y hy x hx.1 hpos.symm (fun e => hne e.symm)
+    have h2 := hx.2
+    rw [hpos] at this
+    simp [this] at h2
+
+/-- `merge_group_errfree`: all alignments of the group are error-free alignments of ONE template, i.e. every call of every
+alignment is the allele `truth position` its haplotype carries.  Then merging never produces a wrong allele, no position
+is dropped as conflicting, and an allele present in one mate (or one used supplementary alignment) only is kept: every
+call of every used alignment is in the merged read with the haplotype's allele. -/
+theorem merge_group_errfree (f12 : Bool) (group : List Aligned) (thr : Int) (primary : Aligned) (truth : Nat → Nat)
+    (hp : (group.filter (fun r => !r.supplementary)).getLast? = some primary)
+    (hn : (group.filter (fun r => !r.supplementary)).length ≤ 2)
+    (herr : ∀ r ∈ group, ∀ x ∈ r.variants, x.2.1 = truth x.1) :
+    ∃ out, mergeGroup f12 group thr = some out ∧
+      (∀ x ∈ out, x.2.1 = truth x.1) ∧
+      (∀ r ∈ group, usedBy f12 primary thr r = true → ∀ x ∈ r.variants, ∃ q, (x.1, truth x.1, q) ∈ out) := by
+  have hskip := foldAdd_skip_errfree truth ([], []) (group.filter (usedBy f12 primary thr)) (by intro x h; cases h)
+    (fun r hr => herr r (List.mem_filter.1 hr).1)
+  refine ⟨_, mergeGroup_eq f12 group thr primary hp hn, ?_, ?_⟩
+  · intro x hx
+    rw [mem_sortByPos, List.mem_filter] at hx
+    rcases foldAdd_mem _ _ x hx.1 with h | ⟨r, hr, h⟩
+    · cases h
+    · exact herr r (List.mem_filter.1 hr).1 x h
+  · intro r hr hu x hx
+    obtain ⟨y, hy, hpos⟩ := foldAdd_covers ([], []) (group.filter (usedBy f12 primary thr)) r
+      (List.mem_filter.2 ⟨hr, hu⟩) x hx
+    have hyt : y.2.1 = truth y.1 := by
+      rcases foldAdd_mem _ _ y hy with h | ⟨r', hr', h⟩
+      · cases h
+      · exact herr r' (List.mem_filter.1 hr').1 y h
+    refine ⟨y.2.2, ?_⟩
+    rw [mem_sortByPos, List.mem_filter, hskip]
+    refine ⟨?_, by simp⟩
+    have : y = (x.1, truth x.1, y.2.2) := by
+      rw [← hpos, ← hyt]
+    rw [← this]; exact hy
+
+/-- … in particular (repaired F12) both mates of a pair always contribute, whatever their orientation and distance. -/
+theorem merge_group_errfree_mates (group : List Aligned) (thr : Int) (primary : Aligned) (truth : Nat → Nat)
+    (hp : (group.filter (fun r => !r.supplementary)).getLast? = some primary)
+    (hn : (group.filter (fun r => !r.supplementary)).length ≤ 2)
+    (herr : ∀ r ∈ group, ∀ x ∈ r.variants, x.2.1 = truth x.1) :
+    ∃ out, mergeGroup true group thr = some out ∧ (∀ x ∈ out, x.2.1 = truth x.1) ∧
+      (∀ r ∈ group, r.supplementary = false → ∀ x ∈ r.variants, ∃ q, (x.1, truth x.1, q) ∈ out) := by
+  obtain ⟨out, h1, h2, h3⟩ := merge_group_errfree true group thr primary truth hp hn herr
+  exact ⟨out, h1, h2, fun r hr hs => h3 r hr (by simp [usedBy, hs])⟩
+
+/-! ### non-vacuity (merging) -/
+section NonVacuityMerge
+private def m1 : Aligned := ⟨false, false, 5, 30, [(10, 1, 30), (20, 0, 30)]⟩
+private def m2 : Aligned := ⟨false, true, 40, 65, [(50, 1, 30)]⟩
+private def sup : Aligned := ⟨true, true, 18, 35, [(20, 0, 25), (33, 1, 30)]⟩
+private def truthEx (p : Nat) : Nat := if p = 20 then 0 else 1
+/-- an FR pair plus a supplementary alignment in the last primary's orientation: hypotheses hold, all four positions kept -/
+example : mergeGroup true [m1, m2, sup] 100000 = some [(10, 1, 30), (20, 0, 30), (33, 1, 30), (50, 1, 30)] := by decide
+example : ∃ out, mergeGroup true [m1, m2, sup] 100000 = some out ∧ (∀ x ∈ out, x.2.1 = truthEx x.1) ∧
+    (∀ r ∈ [m1, m2, sup], usedBy true m2 100000 r = true → ∀ x ∈ r.variants, ∃ q, (x.1, truthEx x.1, q) ∈ out) :=
+  merge_group_errfree true [m1, m2, sup] 100000 m2 truthEx rfl (by decide) (by decide)
+example : usedBy true m2 100000 sup = true ∧ usedBy true m2 100000 m1 = true := by decide
+/-- conflicting mates (impossible for error-free ones): the position is dropped, not decided -/
+example : mergeGroup true [m1, ⟨false, true, 15, 40, [(20, 1, 30)]⟩] 100000 = some [(10, 1, 30)] := by decide
+end NonVacuityMerge
+
+/-! ## Round 10: a second deletion of the read's haplotype CUT by the right window boundary
+
+The full statement aimed at (`realign_indel_window_correct`): "for an error-free read in canonical alignment over an indel
+variant, with ANY operations around it, `realign` returns the carried allele".  That statement is FALSE as soon as a
+second indel of the same haplotype reaches into the window (finding F11).  What holds, and is proved piecewise, is:
+isolated (window inside M/=/X runs, or ended by S/H/N) ⇒ carried allele (`realign_indel_correct`); second indel entirely
+inside the right half ⇒ criterion (`realign_second_indel_criterion`); entirely inside the left half ⇒ criterion
+(`realign_second_indel_left_criterion`); second deletion cut by (or ending on) the right boundary ⇒ criterion below.
+Missing: a deletion cut by the LEFT boundary, more than one extra indel. -/
+
+/-- CIGAR `A ++ W1 ++ [(op, len)] ++ W2a ++ [(D, L)] ++ X`, the deletion starts inside the right half of the window and
+reaches or passes its end (`X` arbitrary): the window's query ends where the deletion starts, the padded alleles go on
+with the first `c = |ref| + oh - (r0 + refLen W2a)` deleted reference bases. -/
+theorem window_is_padded_allele_second_del_cut (f14 : Bool) (R query : Seq) (pos : Nat) (ref a : Seq) (alts : List Seq)
+    (A W1 W2a X : Cigar) (op len d L start oh r0 : Nat) (hoh : 0 < oh)
+    (hW1 : W1.all isMatchOp = true) (hW2a : W2a.all isMatchOp = true)
+    (hshape : (isMatch op = true ∧ d < len ∧ d + ref.length ≤ len ∧ a.length = ref.length ∧ r0 = len - d)
+      ∨ (op = 2 ∧ a = [] ∧ len = ref.length ∧ d = 0 ∧ 0 < len ∧ r0 = len)
+      ∨ (op = 1 ∧ ref = [] ∧ len = a.length ∧ d = 0 ∧ 0 < len ∧ r0 = 0))
+    (hpos : pos = start + refLen A + refLen W1 + d)
+    (hR : slice R pos ref.length = ref)
+    (hin2 : r0 + refLen W2a < ref.length + oh) (hcut : ref.length + oh ≤ r0 + refLen W2a + L)
+    (hin : pos + ref.length + oh ≤ R.length)
+    (hleft : oh ≤ refLen W1 + d ∨ endsWindow f14 A.reverse = true)
+    (hq : slice query (qLen A) (refLen W1 + d + (a.length + (r0 - ref.length + refLen W2a))) =
+      slice R (start + refLen A) (refLen W1 + d) ++ (a ++ slice R (pos + ref.length) (r0 - ref.length + refLen W2a))) :
+    ∃ lp, window f14 ⟨pos, ref, alts⟩ query (A ++ W1 ++ (op, len) :: (W2a ++ (2, L) :: X)) (A ++ W1).length d
+        ((qLen (A ++ W1) + d : Nat) : Int) R oh
+      = .ok ⟨lp ++ a ++ slice R (pos + ref.length) (r0 - ref.length + refLen W2a),
+             (ref :: alts).map (fun x => lp ++ x ++ slice R (pos + ref.length) (r0 - ref.length + refLen W2a)
+               ++ slice R (pos + r0 + refLen W2a) (ref.length + oh - (r0 + refLen W2a)))⟩ := by
+  obtain ⟨lw, hw⟩ := window_second_del_cut_right f14 R query pos ref a alts A W1 W2a X op len d L start oh r0
+    hoh hW1 hW2a hshape hpos hR hin2 hcut hin hleft hq
+  exact ⟨_, hw⟩
+
+/-- … and `realign` returns allele `k` iff `x_k ++ g ++ ur'` is strictly closer to `a ++ g` than every other
+`x_j ++ g ++ ur'` (`g` = reference between variant and deletion, `ur'` = the deleted bases inside the window). -/
+theorem realign_second_del_cut_criterion (f14 : Bool) (R query : Seq) (pos : Nat) (ref a : Seq) (alts : List Seq)
+    (hsym : ∀ x ∈ alts, x.head? ≠ some '<')
+    (A W1 W2a X : Cigar) (op len d L start oh r0 : Nat) (hoh : 0 < oh)
+    (hW1 : W1.all isMatchOp = true) (hW2a : W2a.all isMatchOp = true)
+    (hshape : (isMatch op = true ∧ d < len ∧ d + ref.length ≤ len ∧ a.length = ref.length ∧ r0 = len - d)
+      ∨ (op = 2 ∧ a = [] ∧ len = ref.length ∧ d = 0 ∧ 0 < len ∧ r0 = len)
+      ∨ (op = 1 ∧ ref = [] ∧ len = a.length ∧ d = 0 ∧ 0 < len ∧ r0 = 0))
+    (hpos : pos = start + refLen A + refLen W1 + d)
+    (hR : slice R pos ref.length = ref)
+    (hin2 : r0 + refLen W2a < ref.length + oh) (hcut : ref.length + oh ≤ r0 + refLen W2a + L)
+    (hin : pos + ref.length + oh ≤ R.length)
+    (hleft : oh ≤ refLen W1 + d ∨ endsWindow f14 A.reverse = true)
+    (hq : slice query (qLen A) (refLen W1 + d + (a.length + (r0 - ref.length + refLen W2a))) =
+      slice R (start + refLen A) (refLen W1 + d) ++ (a ++ slice R (pos + ref.length) (r0 - ref.length + refLen W2a)))
+    (k : Nat) :
+    realign f14 lev ⟨pos, ref, alts⟩ none query (A ++ W1 ++ (op, len) :: (W2a ++ (2, L) :: X)) (A ++ W1).length d
+        ((qLen (A ++ W1) + d : Nat) : Int) R oh = .ok (some k) ↔
+      ∃ xk, (ref :: alts)[k]? = some xk ∧ ∀ j xj, (ref :: alts)[j]? = some xj → j ≠ k →
+        lev (a ++ slice R (pos + ref.length) (r0 - ref.length + refLen W2a))
+            (xk ++ slice R (pos + ref.length) (r0 - ref.length + refLen W2a)
+              ++ slice R (pos + r0 + refLen W2a) (ref.length + oh - (r0 + refLen W2a)))
+        < lev (a ++ slice R (pos + ref.length) (r0 - ref.length + refLen W2a))
+            (xj ++ slice R (pos + ref.length) (r0 - ref.length + refLen W2a)
+              ++ slice R (pos + r0 + refLen W2a) (ref.length + oh - (r0 + refLen W2a))) := by
+  obtain ⟨lp, hw⟩ := window_is_padded_allele_second_del_cut f14 R query pos ref a alts A W1 W2a X op len d L
+    start oh r0 hoh hW1 hW2a hshape hpos hR hin2 hcut hin hleft hq
+  have hs : isSymbolic ⟨pos, ref, alts⟩ = false := by
+    simp only [isSymbolic, List.any_eq_false]
+    intro x hx
+    simpa using hsym x hx
+  rw [realign_decision_iff f14 lev _ query _ _ _ _ R oh _ hs hw k]
+  generalize slice R (pos + ref.length) (r0 - ref.length + refLen W2a) = g
+  generalize slice R (pos + r0 + refLen W2a) (ref.length + oh - (r0 + refLen W2a)) = ur
+  have hcancel : ∀ x : Seq, lev (lp ++ a ++ g) (lp ++ x ++ g ++ ur) = lev (a ++ g) (x ++ g ++ ur) := by
+    intro x
+    have e1 : lp ++ a ++ g = lp ++ (a ++ g) := by simp [List.append_assoc]
+    have e2 : lp ++ x ++ g ++ ur = lp ++ (x ++ g ++ ur) := by simp [List.append_assoc]
+    rw [e1, e2, lev_append_left]
+  simp only [List.getElem?_map, Option.map_eq_some_iff]
+  constructor
+  · rintro ⟨pk, ⟨xk, hxk, rfl⟩, hall⟩
+    refine ⟨xk, hxk, ?_⟩
+    intro j xj hxj hjk
+    have := hall j _ ⟨xj, hxj, rfl⟩ hjk
+    rw [hcancel, hcancel] at this
+    exact this
+  · rintro ⟨xk, hxk, hall⟩
+    refine ⟨_, ⟨xk, hxk, rfl⟩, ?_⟩
+    rintro j pj ⟨xj, hxj, rfl⟩ hjk
+    rw [hcancel, hcancel]
+    exact hall j xj hxj hjk
+
+/-! ### non-vacuity (cut deletion) -/
+section NonVacuityCut
+/-- reference `GGACCTTGGGGGG`, insertion `ε>TT` at 5; the haplotype also deletes `TTGG` at 5..8, overhang 3: the deletion
+is cut by the window (`c = 3`); read `5M 2I 4D 4M` -/
+example : window true ⟨5, [], [['T', 'T']]⟩ ['G', 'G', 'A', 'C', 'C', 'T', 'T', 'G', 'G', 'G', 'G']
+    ([] ++ [(0, 5)] ++ (1, 2) :: ([] ++ (2, 4) :: [(0, 4)])) ([] ++ [(0, 5)]).length 0
+    ((qLen ([] ++ [(0, 5)]) + 0 : Nat) : Int) Rt 3 =
+    .ok ⟨['A', 'C', 'C', 'T', 'T'], [['A', 'C', 'C', 'T', 'T', 'G'], ['A', 'C', 'C', 'T', 'T', 'T', 'T', 'G']]⟩ := by decide
+example : ∃ lp, window true ⟨5, [], [['T', 'T']]⟩ ['G', 'G', 'A', 'C', 'C', 'T', 'T', 'G', 'G', 'G', 'G']
+    ([] ++ [(0, 5)] ++ (1, 2) :: ([] ++ (2, 4) :: [(0, 4)])) ([] ++ [(0, 5)]).length 0
+    ((qLen ([] ++ [(0, 5)]) + 0 : Nat) : Int) Rt 3 = .ok ⟨lp ++ ['T', 'T'] ++ slice Rt (5 + 0) (0 - 0 + refLen []),
+      ([] :: [['T', 'T']]).map (fun x => lp ++ x ++ slice Rt (5 + 0) (0 - 0 + refLen []) ++ slice Rt (5 + 0 + refLen []) (0 + 3 - (0 + refLen [])))⟩ :=
+  window_is_padded_allele_second_del_cut true Rt _ 5 [] ['T', 'T'] [['T', 'T']] [] [(0, 5)] [] [(0, 4)] 1 2 0 4 0 3 0
+    (by decide) (by decide) (by decide) (Or.inr (Or.inr ⟨rfl, rfl, rfl, rfl, by decide, rfl⟩)) (by decide) (by decide)
+    (by decide) (by decide) (by decide) (Or.inl (by decide)) (by decide)
+end NonVacuityCut
+
 
 end WhVerif.Props.C06
